@@ -12,7 +12,7 @@ def run(ctx):
     gen = [("c06_g", dict(Nets='{"n1", "n2", "n3"}', SubQoS="{0, 1, 2}", PubQoS="{1, 2}", Subscribers='{"n1", "n2", "n3"}', Publishers='{"n1", "n2"}',
                           MaxPub=8, MaxSubOps=6, MaxCloses=1, EnPing="TRUE", EnDisconnect="TRUE"),
             dict(Topics="MCTopics3", Filters="MCFilters3", MatchRel="MCMatch3"), 600 if q else 6000, 45)]
-    rc.liveness(ctx, "c06_live", dict(MaxPub=1 if q else 2, MaxSubOps=1 if q else 2, SubQoS="{1}", PubQoS="{1, 2}", EnPing="TRUE"))
+    rc.liveness(ctx, "c06_live", dict(MaxPub=1 if q else 2, MaxSubOps=1, SubQoS="{1}", PubQoS="{1, 2}", EnPing="TRUE"))
     rc.run_router_property(ctx, "C06", mc, gen, INV)
 
 
